@@ -115,7 +115,7 @@ Ltac rr_step :=
 Ltac rrs := repeat (rr_step; cbv beta zeta).
 Ltac unf_r := unfold handle_view_update, handle_proposal_view, handle_timer_elapsed, record_prevote, record_precommit,
   record_proposed_header, advance_after_vrv, advance_after_ch, enter_round, begin_round_live,
-  handle_precommit_view, handle_prevote_view, handle_commit_wait_view, handle_jump_ahead, view_tail,
+  view_tail, handle_precommit_view, handle_prevote_view, handle_commit_wait_view, handle_jump_ahead,
   handle_block_data, handle_finalization, handle_height_committed, vrv_or_panic, thresholds,
   begin_commit, cancel_timer, start_timer, finalize_req, req_decide, req_choose, req_consider, emit.
 
